@@ -184,12 +184,13 @@ func runDeployment1(d *Deployment, rt routes, prefixes []string, c *vlib.Cases, 
 			b.Close()
 		}
 	}()
-	s, err := stack.Start(stack.Opts{Engine: "sherpa", Balancer: "priority", EPs: eps, ModelDiscovery: true, Mutate: func(cfg *config.Config) {
+	s, err := stack.Start(stack.Opts{Vary: stack.VaryForJSON("c11", d), Engine: "sherpa", Balancer: "priority", EPs: eps, ModelDiscovery: true, Mutate: func(cfg *config.Config) {
 		for i := range cfg.Discovery.Static.Endpoints {
 			cfg.Discovery.Static.Endpoints[i].ModelURL = "" // profile default discovery path
 		}
 		// the provider constraint must hold under every routing strategy an operator may configure
-		switch len(d.EPs) % 3 {
+		// (fallback "all" means: every healthy endpoint THE ROUTE ALLOWS)
+		switch (len(d.EPs) + len(d.Shadowed) + len(d.EPs[0].Models)) % 6 {
 		case 1:
 			cfg.ModelRegistry.RoutingStrategy.Type = "discovery"
 			cfg.ModelRegistry.RoutingStrategy.Options.DiscoveryRefreshOnMiss = true
@@ -197,6 +198,17 @@ func runDeployment1(d *Deployment, rt routes, prefixes []string, c *vlib.Cases, 
 		case 2:
 			cfg.ModelRegistry.RoutingStrategy.Type = "optimistic"
 			cfg.ModelRegistry.RoutingStrategy.Options.FallbackBehavior = "compatible_only"
+		case 3:
+			cfg.ModelRegistry.RoutingStrategy.Type = "discovery"
+			cfg.ModelRegistry.RoutingStrategy.Options.DiscoveryRefreshOnMiss = true
+			cfg.ModelRegistry.RoutingStrategy.Options.FallbackBehavior = "all"
+		case 4:
+			cfg.ModelRegistry.RoutingStrategy.Type = "optimistic"
+			cfg.ModelRegistry.RoutingStrategy.Options.FallbackBehavior = "all"
+		case 5:
+			cfg.ModelRegistry.RoutingStrategy.Type = "discovery"
+			cfg.ModelRegistry.RoutingStrategy.Options.DiscoveryRefreshOnMiss = false
+			cfg.ModelRegistry.RoutingStrategy.Options.FallbackBehavior = "none"
 		}
 	}})
 	if err != nil {
